@@ -578,3 +578,8 @@ def np_random_randint(m, args, kw, node):
     r = m.fresh_scalar("int", "np.random.randint")
     m.assume(z3.And(r.t >= lo_t, r.t < hi_t))
     return r
+
+
+@ext("time.sleep", "no effect on program state")
+def time_sleep(m, args, kw, node):
+    return None
